@@ -81,7 +81,7 @@ fn gen_pred(rng: &mut StdRng, vars: &[String], evars: &[String], depth: u32, all
 }
 
 pub fn gen_query(rng: &mut StdRng, profile: &str) -> J {
-    let hops = match profile { "order" => 0, "idx" => [0, 0, 0, 1][rng.random_range(0..4)], _ => [0, 0, 1, 1, 1, 2][rng.random_range(0..6)] };
+    let hops = match profile { "order" => 0, "varlen" => [1, 1, 2][rng.random_range(0..3)], "idx" => [0, 0, 0, 1][rng.random_range(0..4)], _ => [0, 0, 1, 1, 1, 2][rng.random_range(0..6)] };
     let mut path = vec![];
     let mut nvars = vec![];
     let mut evars = vec![];
@@ -89,8 +89,15 @@ pub fn gen_query(rng: &mut StdRng, profile: &str) -> J {
         if i > 0 {
             let ev = format!("e{i}");
             let dir = ["out", "out", "in", "both"][rng.random_range(0..4)];
-            path.push(json!({"var": ev, "types": match rng.random_range(0..4) { 0 => vec!["T"], 1 => vec!["U"], _ => vec![] }, "dir": dir}));
-            evars.push(ev);
+            let types = match rng.random_range(0..4) { 0 => vec!["T"], 1 => vec!["U"], _ => vec![] };
+            if profile == "varlen" {
+                // variable-length hop: the edge variable is a walk and is never used in WHERE / RETURN
+                let (mn, mx) = [(1, 2), (2, 2), (1, 3), (2, 3), (1, 1)][rng.random_range(0..5)];
+                path.push(json!({"var": ev, "types": types, "dir": dir, "min": mn, "max": mx}));
+            } else {
+                path.push(json!({"var": ev, "types": types, "dir": dir}));
+                evars.push(ev);
+            }
         }
         let nv = format!("n{i}");
         path.push(json!({"var": nv, "labels": match rng.random_range(0..6) { 0 | 1 => vec!["A"], 2 => vec!["B"], _ => vec![] }}));
@@ -204,7 +211,7 @@ pub fn render(q: &J, lang: &str) -> Option<String> {
             s += &format!("({}{})", p["var"].as_str()?, labs);
         } else {
             let t = p["types"].as_array()?.first().map(|t| format!(":{}", t.as_str().unwrap())).unwrap_or_default();
-            let body = format!("[{}{}]", p["var"].as_str()?, t);
+            let body = match p.get("min") { Some(mn) => format!("[{t}*{}..{}]", mn, p["max"]), None => format!("[{}{}]", p["var"].as_str()?, t) };
             s += &match p["dir"].as_str()? { "out" => format!("-{body}->"), "in" => format!("<-{body}-"), _ => format!("-{body}-") };
         }
     }
@@ -249,6 +256,7 @@ pub fn render_gremlin(q: &J, variant: usize) -> Option<(J, String)> {
     }
     let mut cmps = vec![];
     if q.get("opt").is_some() || !conj(&q["where"], &mut cmps) { return None; }
+    if q["path"].as_array()?.iter().any(|p| p.get("min").is_some()) { return None; }
     let has = |var: &str| -> Option<String> {
         let mut s = String::new();
         for c in cmps.iter().filter(|c| c["a"]["var"] == var) {
@@ -373,7 +381,9 @@ pub fn main(o: &Opts) -> i32 {
     let mode = o.str("mode", "sem");
     let mut cid = 0;
     for gi in 0..ngraphs {
-        let mut g = gen_graph(&mut rng, o.usize("maxn", 5), o.usize("maxe", 7));
+        // walks multiply quickly: variable-length cases use smaller graphs
+        let (maxn, maxe) = if profile == "varlen" { (o.usize("maxn", 5).min(4), o.usize("maxe", 7).min(5)) } else { (o.usize("maxn", 5), o.usize("maxe", 7)) };
+        let mut g = gen_graph(&mut rng, maxn, maxe);
         match mode.as_str() {
             // C09: every optimizer configuration x statistics state must give the oracle's answer
             "opt" => {
